@@ -101,7 +101,8 @@ def main():
             dirs.append(a)
     work = []
     for top in dirs:
-        rn = "round1" if os.path.basename(os.path.normpath(top)) == "candidates" else "round2"
+        rn = {"candidates": "round1", "candidates2": "round2", "candidates3": "round3"}.get(
+            os.path.basename(os.path.normpath(top)), "roundx")
         for prop in sorted(os.listdir(top)):
             pd = os.path.join(top, prop)
             if not os.path.isdir(pd):
@@ -110,7 +111,7 @@ def main():
                 cdir = os.path.join(pd, m)
                 if not os.path.exists(os.path.join(cdir, "patch.diff")) or not os.path.exists(os.path.join(cdir, "demo.py")):
                     continue
-                sid = "{}-{}-{}".format(prop, "r1" if rn == "round1" else "r2", m.replace("_", "-"))
+                sid = "{}-{}-{}".format(prop, "r" + rn[-1], m.replace("_", "-"))
                 if only and sid not in only:
                     continue
                 work.append((os.path.abspath(cdir), sid, rn))
@@ -145,6 +146,11 @@ def main():
                         "caught_by_own_property_check": rec["caught"],
                         "first_violation": rec["check"]["first_clause"]}
                 json.dump(meta, open(os.path.join(out, "meta.json"), "w"), indent=1)
+    # merge with the results of earlier runs (a partial run only refreshes its own rows)
+    rfile = os.path.join(VERIF, "seeded", "results.json")
+    if os.path.exists(rfile):
+        done = {r["id"] for r in results}
+        results += [r for r in json.load(open(rfile)) if r["id"] not in done]
     results.sort(key=lambda r: r["id"])
     json.dump(results, open(os.path.join(VERIF, "seeded", "results.json"), "w"), indent=1)
     lines = ["# Seeded changes: what was confirmed and which check catches it", "",
